@@ -23,4 +23,25 @@ META = {
 def main(argv):
     c = vcheck.Check("C07", argv)
     mirrorlib.mirror_check(c, "C07", ["c07", "c06"], "C07 validator sets", extra=["-crashes"], templates=[8])  # c06: the available power every view counts against is that of its own set
+    # the state-machine half of C07: the set the state machine uses at height h is what the driver returned when finalizing h-2,
+    # also across restarts on the same stores (model walk with changing sets + the scripted histories of Model/SMScenarios.v);
+    # monitor Monitors/SMm.c07_sm_valset on the real tmstate.StateMachine's observations
+    import sm_common as S
+    tok, binary = S.prepare(c)
+    if binary is not None:
+        clauses = ["c07_sm_valset"]
+
+        def classify(name, evs, fl):
+            # the known defect of the catch-up branch (C08's finding, witness w8): after a round entrance answered with a committed
+            # header the validator-set bookkeeping stays empty - the model predicts the monitor's failure on such a history
+            if name == "c07_sm_valset" and any(e[0] == 4 for e in evs) and fl.get("model:" + name) is False:
+                return "catchup-leaves-validator-sets-empty"
+            return name
+        n, steps = (24, 40) if c.tier == "quick" else (300, 60)
+        cov_mirror = dict(c.coverage)
+        S.walked(c, "C07", binary, "c07sm", n, steps, clauses, classify)
+        S.run_scenarios(c, binary, "c07sm", clauses, classify)
+        sm_cov = {k: c.coverage[k] for k in ("evaluations", "traces", "event_distribution", "scripted_histories") if k in c.coverage}
+        c.coverage.update(cov_mirror)
+        c.coverage["state_machine_validator_sets"] = sm_cov
     c.finish()
